@@ -6,7 +6,8 @@
 //!             then per UTxO: <txid hex> <index> <owner kind> <pay key id> <stake key id> <addr hex> <coin> <multiasset>
 //!             multiasset = `~` (None) | <npolicies> { <policy hex> <nassets> { <name hex|-> <quantity> } }
 //! Result:     ok <k> { <tx hex> <signed tx hex> } | <hook H2 traces> | <bootstrap witness sizes> | <real figures> | <canonical content>
-//!             or  err | <bootstrap witness sizes>   or  panic
+//!               | <iteration orders (oracle)>
+//!             or  err | <bootstrap witness sizes> | <iteration orders>   or  panic
 //! The signed transaction has the same body and a witness set with one real Ed25519 vkey witness per distinct
 //! payment key and one real Icarus bootstrap witness per distinct Byron address among the spent UTxOs (the keys
 //! are derived from the key ids in the case line).  Everything else (partition, balance, fee, sizes, min ADA)
@@ -213,8 +214,12 @@ fn exec(keys: &mut Keys, toks: &[String]) -> String {
         .max_value_size(c.mvs).max_tx_size(c.mts).coins_per_utxo_byte(&BigNum::from(c.cpb))
         .build().expect("config");
     let _ = verif_hooks_c13::take_send_all_traces();
+    let _ = verif_hooks_c13::take_send_all_orders();
     let res = std::panic::catch_unwind(std::panic::AssertUnwindSafe(|| create_send_all(&target, &utxos, &cfg)));
     let traces = verif_hooks_c13::take_send_all_traces();
+    // hook H2: the HashSet iteration orders taken, in call order (the oracle script of Batch/AssetPath.v)
+    let orders = verif_hooks_c13::take_send_all_orders();
+    let orders = format!("{} {}", orders.len(), orders.iter().map(|x| if x.ends_with(':') { format!("{}-", x) } else { x.clone() }).collect::<Vec<String>>().join(" "));
     // sizes of the fake bootstrap witnesses of the Byron owners (what get_boostrap_witness_size measures), per UTxO
     let mut bsizes = format!("{}", c.us.len());
     let zero = TransactionHash::from_bytes(vec![0u8; 32]).unwrap();
@@ -227,7 +232,7 @@ fn exec(keys: &mut Keys, toks: &[String]) -> String {
     }
     match res {
         Err(_) => "panic".into(),
-        Ok(Err(_)) => format!("err | {}", bsizes),
+        Ok(Err(_)) => format!("err | {} | {}", bsizes, orders.trim_end()),
         Ok(Ok(batches)) => {
             let mut txs = Vec::new();
             for i in 0..batches.len() { let b = batches.get(i); for j in 0..b.len() { txs.push(b.get(j)); } }
@@ -260,6 +265,7 @@ fn exec(keys: &mut Keys, toks: &[String]) -> String {
                 let coins: Vec<String> = (0..outs.len()).map(|i| outs.get(i).amount().coin().to_str()).collect();
                 s.push_str(&format!(" {},{},{}", ix.iter().map(|x| x.to_string()).collect::<Vec<String>>().join("+"), tx.body().fee().to_str(), coins.join(";")));
             }
+            s.push_str(&format!(" | {}", orders.trim_end()));
             s
         }
     }
@@ -528,7 +534,7 @@ fn gen(dir: &str) {
     let mut r = Rng::new(seed ^ 0xC13);
     let mut keys = Keys::new();
     let mut out = Out::new(dir);
-    let n = if thorough { 12000 } else { 1000 };
+    let n = if thorough { 8000 } else { 1000 };
     for i in 0..n {
         let c = if i % 5 < 2 { let fam = r.below(11); gen_targeted(&mut r, &mut keys, fam) } else { gen_case(&mut r, &mut keys, i) };
         let line = case_line(&c);
